@@ -125,12 +125,22 @@ def job_reload(job):
     m = model_by_id(job["model"], job["kind"])       # same constructor arguments; model_by_id seeds torch itself ...
     torch.manual_seed(job["seed2"] + 1)               # ... so rebuild the randomly wired layers under the other seed
     m2 = rebuild_like(m)
-    sd = torch.load(job["state_path"])
-    m2.load_state_dict(sd)
     n_in = int(np.prod(job["input_shape"]))
     rows = probe(n_in, 100)
     x = torch.tensor(rows, dtype=torch.float32).reshape(len(rows), *job["input_shape"])
-    m2.eval()
+    if job.get("warm"):
+        # the rebuilt model has already been used (a training forward, then eval-mode forwards) before the state is loaded,
+        # and no mode switch happens between loading and evaluating
+        m2.train()
+        with torch.no_grad():
+            m2(x)
+        m2.eval()
+        with torch.no_grad():
+            m2(x)
+    sd = torch.load(job["state_path"])
+    m2.load_state_dict(sd)
+    if not job.get("warm"):
+        m2.eval()
     with torch.no_grad():
         y = m2(x).tolist()
     net = CM.CompiledLogicNet.load(job["lib_path"], tuple(job["input_shape"]), job["k"], job["W"])
